@@ -11,7 +11,7 @@ import z3
 
 from .front import World, FunctionInfo, ClassInfo, ModuleInfo
 from .ops import *  # noqa: F401,F403
-from .state import State, Unsupported, PathEnd, PyExc
+from .state import State, Unsupported, PathEnd, PyExc, NeedBranch
 from .values import *  # noqa: F401,F403
 
 
@@ -301,7 +301,15 @@ class Ex:
                 return self.lib.arr_unary(self, "not", v)
         raise Unsupported(f"unary {type(e.op).__name__}")
 
+    def resolve(self, v):
+        """Decide a Maybe value on the current path."""
+        while isinstance(v, VMaybe):
+            v = v.val if self.st.branch(v.present) else NONE
+        return v
+
     def truth(self, v, fr=None):
+        if isinstance(v, VMaybe):
+            return z_and(v.present, self.truth(v.val, fr))
         if isinstance(v, VRef):
             cell = self.st.cell(v)
             if isinstance(cell, HList):
@@ -340,6 +348,22 @@ class Ex:
         return last
 
     def ev_IfExp(self, e, fr):
+        if self.cfg.merge_optional and isinstance(e.orelse, ast.Constant) and e.orelse.value is None:
+            # `X if c else None` without a path split: the value is Maybe(c, X), provided evaluating X needs no
+            # decision and cannot raise (otherwise fall back to the ordinary two-path treatment)
+            c = self.truth(self.ev(e.test, fr), fr)
+            if not isinstance(c, bool):
+                self.st.no_branch = getattr(self.st, "no_branch", 0) + 1
+                try:
+                    val = self.ev(e.body, fr)
+                    return VMaybe(c, val)
+                except (NeedBranch, PyExc):
+                    pass
+                finally:
+                    self.st.no_branch -= 1
+            if self.st.branch(c):
+                return self.ev(e.body, fr)
+            return self.ev(e.orelse, fr)
         if self.st.branch(self.truth(self.ev(e.test, fr), fr)):
             return self.ev(e.body, fr)
         return self.ev(e.orelse, fr)
@@ -399,10 +423,18 @@ class Ex:
                 return {"lt": a.v < b.v, "le": a.v <= b.v, "gt": a.v > b.v, "ge": a.v >= b.v}[CMP[type(op)]]
             x, y = z_str(a.v), z_str(b.v)
             return {"lt": x < y, "le": x <= y, "gt": y < x, "ge": y <= x}[CMP[type(op)]]
-        if isinstance(a, VTuple) and isinstance(b, VTuple) and all(is_num(x) for x in a.items + b.items) \
-                and len(a.items) == len(b.items) and all(is_conc(x.v) for x in a.items + b.items):
-            ta, tb = tuple(x.v for x in a.items), tuple(x.v for x in b.items)
-            return {"lt": ta < tb, "le": ta <= tb, "gt": ta > tb, "ge": ta >= tb}[CMP[type(op)]]
+        if isinstance(a, VTuple) and isinstance(b, VTuple):
+            # lexicographic comparison decided on the concrete numeric prefix (sys.version_info >= (3, 11) ...)
+            n = min(len(a.items), len(b.items))
+            if all(isinstance(x, (VInt, VFloat, VBool, VStr)) and is_conc(x.v) for x in a.items[:n] + b.items[:n]):
+                ta, tb = tuple(x.v for x in a.items[:n]), tuple(x.v for x in b.items[:n])
+                if ta != tb or len(a.items) == len(b.items):
+                    if ta == tb:
+                        return CMP[type(op)] in ("le", "ge")
+                    return {"lt": ta < tb, "le": ta <= tb, "gt": ta > tb, "ge": ta >= tb}[CMP[type(op)]]
+                longer_a = len(a.items) > len(b.items)
+                return {"lt": not longer_a, "le": not longer_a, "gt": longer_a, "ge": longer_a}[CMP[type(op)]]
+            raise Unsupported("ordering comparison of symbolic tuples")
         # ordering comparison between non-numbers: TypeError in Python 3
         self.throw("TypeError", "'<' not supported between instances")
 
@@ -410,6 +442,11 @@ class Ex:
         return isinstance(v, VRef) and isinstance(self.st.cell(v), HArr)
 
     def identical(self, a, b):
+        if isinstance(a, VMaybe) and isinstance(b, VNone):
+            return z_not(a.present)
+        if isinstance(b, VMaybe) and isinstance(a, VNone):
+            return z_not(b.present)
+        a, b = self.resolve(a), self.resolve(b)
         if isinstance(a, VNone) or isinstance(b, VNone):
             if isinstance(a, VNone) and isinstance(b, VNone):
                 return True
@@ -434,6 +471,7 @@ class Ex:
 
     def eq(self, a, b, fr=None):
         """Python == as bool | z3 Bool."""
+        a, b = self.resolve(a), self.resolve(b)
         if isinstance(a, VNone) or isinstance(b, VNone):
             if isinstance(a, VNone) and isinstance(b, VNone):
                 return True
@@ -618,6 +656,7 @@ class Ex:
         return None
 
     def getattr(self, obj: Val, name: str, fr, default=None) -> Val:
+        obj = self.resolve(obj)
         if isinstance(obj, VRef):
             cell = self.st.cell(obj)
             if isinstance(cell, HObj):
@@ -748,6 +787,7 @@ class Ex:
         return self.lib.sym_attr(self, obj, name, fr)
 
     def setattr(self, obj: Val, name: str, val: Val, fr):
+        obj = self.resolve(obj)
         if isinstance(obj, VRef):
             cell = self.st.cell(obj)
             if isinstance(cell, HObj):
@@ -816,6 +856,7 @@ class Ex:
         return None
 
     def getitem(self, obj, idx, fr):
+        obj, idx = self.resolve(obj), self.resolve(idx)
         items = self.try_list(obj)
         if items is not None:
             if isinstance(idx, VSlice):
@@ -947,6 +988,7 @@ class Ex:
     # ---- iteration ----------------------------------------------------------------------
     def iterate(self, v, fr) -> list:
         """Concrete-length iteration: list of element Vals (raises Unsupported for symbolic length)."""
+        v = self.resolve(v)
         items = self.try_list(v)
         if items is not None:
             return items
@@ -1046,6 +1088,7 @@ class Ex:
         return None
 
     def call(self, f: Val, args, kwargs, fr, node=None) -> Val:
+        f = self.resolve(f)
         if isinstance(f, VFunc):
             return self.call_function(f, args, kwargs, fr)
         if isinstance(f, VClass):
@@ -1218,7 +1261,12 @@ class Ex:
         if isinstance(s.value, ast.Constant):
             return
         if isinstance(s.value, ast.Yield):
-            fr.yielded.append(self.ev(s.value.value, fr) if s.value.value else NONE)
+            v = self.ev(s.value.value, fr) if s.value.value else NONE
+            if "YIELD" in self.st.ghost:        # generator verified against a sequence contract (ghost YIELD : Seq)
+                t = v.t if isinstance(v, VSym) else z_int(int_of(v))
+                self.st.ghost["YIELD"] = z3.Concat(self.st.ghost["YIELD"], z3.Unit(t))
+                return
+            fr.yielded.append(v)
             return
         if isinstance(s.value, ast.YieldFrom):
             fr.yielded.extend(self.iterate(self.ev(s.value.value, fr), fr))
@@ -1299,6 +1347,14 @@ class Ex:
         raise PyExc(v)
 
     def ex_If(self, s, fr):
+        ab = self.cfg.abstract_blocks.get((fr.fi.qualname if fr.fi else None, ast.unparse(s.test)))
+        if ab is not None:
+            # declared abstract block: its effect is summarised by the sidecar (frame + deny-list checked there)
+            if self.st.branch(self.truth(self.ev(s.test, fr), fr)):
+                ab(self, s, fr)
+            else:
+                self.exec_block(s.orelse, fr)
+            return
         if self.st.branch(self.truth(self.ev(s.test, fr), fr)):
             self.exec_block(s.body, fr)
         else:
